@@ -74,6 +74,14 @@ impl InstructionIR {
     /// Private method to generates QASM string and comment string for control qubits.
     // Returns (modifier `ctrl(n) @ `, the control operands `q[c0], q[c1], ` that lead the operand list, comment)
     fn generate_control_qasm_strings(controls: &[usize]) -> (String, String, String) {
+        // A control qubit listed more than once is the same control: the operands of a gate call must be distinct
+        let mut unique_controls: Vec<usize> = Vec::with_capacity(controls.len());
+        for c in controls {
+            if !unique_controls.contains(c) {
+                unique_controls.push(*c);
+            }
+        }
+        let controls: &[usize] = &unique_controls;
         if controls.is_empty() {
             (String::new(), String::new(), String::new())
         } else {
